@@ -1,8 +1,240 @@
 package main
 
-import "verifharness/internal/hx"
+import (
+	"encoding/hex"
+	"encoding/json"
+	"strings"
 
-func genLisk32(o *hx.Out, rng *hx.Rng, n int) {}
-func genIDs(o *hx.Out, rng *hx.Rng)           {}
-func replayLisk32(o *hx.Out, line []byte)     {}
-func replayID(o *hx.Out, line []byte)         {}
+	"github.com/LiskHQ/lisk-engine/pkg/blockchain"
+	"github.com/LiskHQ/lisk-engine/pkg/codec"
+
+	"verifharness/internal/cx"
+	"verifharness/internal/cxs"
+	"verifharness/internal/hx"
+)
+
+type l32Rec struct {
+	K     string `json:"k"`
+	B2T   bool   `json:"b2t"`
+	In    string `json:"in"` // hex of the bytes / of the text
+	Gen   string `json:"gen"`
+	St    int    `json:"st"`
+	Ec    int    `json:"ec"`
+	Out   string `json:"out"`
+	Bst   int    `json:"bst"`
+	Back  string `json:"back"`
+	Panic string `json:"panic,omitempty"`
+}
+
+func l32ErrCode(err error) int {
+	switch {
+	case err == nil:
+		return 0
+	case strings.Contains(err.Error(), "must be size of"):
+		return 1
+	case strings.Contains(err.Error(), "must start with lsk"):
+		return 2
+	case strings.Contains(err.Error(), "invalid character"):
+		return 3
+	case strings.Contains(err.Error(), "invalid checksum"):
+		return 4
+	}
+	return 99
+}
+
+func runL32(b2t bool, in []byte, gen string) l32Rec {
+	rec := l32Rec{K: "l32", B2T: b2t, In: hex.EncodeToString(in), Gen: gen}
+	st, msg := cx.Guard(func() {
+		if b2t {
+			s, err := codec.BytesToLisk32(in)
+			if err != nil {
+				rec.St, rec.Ec = 1, l32ErrCode(err)
+				return
+			}
+			rec.Out = hex.EncodeToString([]byte(s))
+			b, err := codec.Lisk32ToBytes(s)
+			if err != nil {
+				rec.Bst = 1
+				return
+			}
+			rec.Back = hex.EncodeToString(b)
+		} else {
+			b, err := codec.Lisk32ToBytes(string(in))
+			if err != nil {
+				rec.St, rec.Ec = 1, l32ErrCode(err)
+				return
+			}
+			rec.Out = hex.EncodeToString(b)
+			s, err := codec.BytesToLisk32(b)
+			if err != nil {
+				rec.Bst = 1
+				return
+			}
+			rec.Back = hex.EncodeToString([]byte(s))
+		}
+	})
+	if st != 0 {
+		rec.St, rec.Panic = st, msg
+	}
+	return rec
+}
+
+const l32Charset = "zxvcpmbn3465o978uyrtkqew2adsjhfg"
+
+func genLisk32(o *hx.Out, rng *hx.Rng, n int) {
+	var addrs [][]byte
+	for _, f := range []byte{0x00, 0xff, 0x01, 0x80, 0x7f, 0xaa, 0x55} {
+		a := make([]byte, 20)
+		for i := range a {
+			a[i] = f
+		}
+		addrs = append(addrs, a)
+	}
+	for i := 0; i < 20; i++ { // single non-zero byte at every position
+		a := make([]byte, 20)
+		a[i] = 0xff
+		addrs = append(addrs, a)
+	}
+	for i := 0; i < n; i++ {
+		addrs = append(addrs, rng.Bytes(20))
+	}
+	for _, a := range addrs {
+		o.Put(runL32(true, a, "addr"))
+	}
+	for _, l := range []int{0, 1, 19, 21, 32} {
+		o.Put(runL32(true, rng.Bytes(l), "len"))
+	}
+	// text -> bytes: valid texts, every single-character corruption of a few samples, prefix / length / charset errors
+	for i, a := range addrs {
+		s, _ := codec.BytesToLisk32(a)
+		o.Put(runL32(false, []byte(s), "valid"))
+		if i%9 == 0 || i < 3 {
+			for p := 3; p < len(s); p++ {
+				for k := 0; k < 2; k++ {
+					c := l32Charset[rng.Intn(32)]
+					if c == s[p] {
+						continue
+					}
+					t := []byte(s)
+					t[p] = c
+					o.Put(runL32(false, t, "corrupt1"))
+				}
+			}
+		}
+		if i < 12 {
+			t := []byte(s)
+			o.Put(runL32(false, append([]byte("xyz"), t[3:]...), "prefix"))
+			o.Put(runL32(false, append([]byte("LSK"), t[3:]...), "prefix"))
+			o.Put(runL32(false, t[:40], "len"))
+			o.Put(runL32(false, append(t, 'z'), "len"))
+			u := append([]byte{}, t...)
+			u[5+i] = "1bio0AZ \xc3\xff"[i%10]
+			o.Put(runL32(false, u, "char"))
+			v := append([]byte{}, t...)
+			v[10], v[11] = 0xc3, 0xa9 // a two-byte rune inside: 41 bytes, 40 runes
+			o.Put(runL32(false, v, "char"))
+			w := append([]byte{}, t...)
+			w[7], w[9] = w[9], w[7]
+			o.Put(runL32(false, w, "swap"))
+		}
+	}
+	o.Put(runL32(false, []byte{}, "empty"))
+}
+
+func replayLisk32(o *hx.Out, line []byte) {
+	var r l32Rec
+	if err := json.Unmarshal(line, &r); err != nil {
+		panic(err)
+	}
+	in, _ := hex.DecodeString(r.In)
+	o.Put(runL32(r.B2T, in, r.Gen))
+}
+
+// ---- IDs: NewTransaction / NewBlockHeader: ID, re-encoding, ID of the re-decoded re-encoding
+type idRec struct {
+	K     string `json:"k"`
+	Kind  string `json:"kind"`
+	D     string `json:"d"`
+	Gen   string `json:"gen"`
+	St    int    `json:"st"`
+	ID    string `json:"id"`
+	Re    string `json:"re"`
+	St2   int    `json:"st2"`
+	ID2   string `json:"id2"`
+	Re2   string `json:"re2"`
+	Panic string `json:"panic,omitempty"`
+}
+
+func runID(kind string, d []byte, gen string) idRec {
+	rec := idRec{K: "id", Kind: kind, D: hex.EncodeToString(d), Gen: gen}
+	one := func(in []byte) (int, string, string) {
+		switch kind {
+		case "tx":
+			t, err := blockchain.NewTransaction(in)
+			if err != nil {
+				return 1, "", ""
+			}
+			return 0, hex.EncodeToString(t.ID), hex.EncodeToString(t.Encode())
+		case "header":
+			h, err := blockchain.NewBlockHeader(in)
+			if err != nil {
+				return 1, "", ""
+			}
+			return 0, hex.EncodeToString(h.ID), hex.EncodeToString(h.Encode())
+		case "block":
+			b, err := blockchain.NewBlock(in)
+			if err != nil {
+				return 1, "", ""
+			}
+			return 0, hex.EncodeToString(b.Header.ID), hex.EncodeToString(b.Header.Encode())
+		}
+		panic("unknown id kind")
+	}
+	st, msg := cx.Guard(func() {
+		rec.St, rec.ID, rec.Re = one(append([]byte{}, d...))
+		if rec.St == 0 {
+			re, _ := hex.DecodeString(rec.Re)
+			if kind == "block" { // second round on the header bytes
+				kind = "header"
+			}
+			rec.St2, rec.ID2, rec.Re2 = one(re)
+		}
+	})
+	if st != 0 {
+		rec.St, rec.Panic = st, msg
+	}
+	return rec
+}
+
+func genIDs(o *hx.Out, rng *hx.Rng) {
+	tx := cxs.Lookup("pkg/blockchain.Transaction")
+	hd := cxs.Lookup("pkg/blockchain.BlockHeader")
+	for i := 0; i < 40; i++ {
+		d := cxs.GenValue(rng, tx, 0, false)
+		o.Put(runID("tx", d, "gen"))
+		for j := 0; j < 6; j++ {
+			o.Put(runID("tx", cx.Mutate(rng, d, 1), "mut"))
+		}
+		// non-canonical variants of the same value: padded varint, trailing byte, missing last field
+		o.Put(runID("tx", append(append([]byte{}, d...), 0x00), "trail"))
+		h := cxs.GenValue(rng, hd, 0, i%4 == 3)
+		o.Put(runID("header", h, "gen"))
+		for j := 0; j < 4; j++ {
+			o.Put(runID("header", cx.Mutate(rng, h, 1), "mut"))
+		}
+		// a block around the header
+		w := codec.NewWriter()
+		w.WriteBytes(1, h)
+		w.WriteBytesArray(2, [][]byte{d})
+		o.Put(runID("block", w.Result(), "gen"))
+	}
+}
+
+func replayID(o *hx.Out, line []byte) {
+	var r idRec
+	if err := json.Unmarshal(line, &r); err != nil {
+		panic(err)
+	}
+	d, _ := hex.DecodeString(r.D)
+	o.Put(runID(r.Kind, d, r.Gen))
+}
